@@ -302,7 +302,24 @@ func chainTo(nodes map[string]*gnode, n *gnode) (init string, chain []string, wa
 	return n.raw, chain, want
 }
 
+// deadEdges: transitions (from-state, transition) that did not go as the model says in any of the attempts of one
+// build. Every chain through such an edge would wait out the step timeout again; the divergence itself is reported
+// where the edge is replayed as a transition of its source state.
+var deadEdges sync.Map
+
+func edgeKey(from, tr string) string { return from + "\x00" + tr }
+
 func build(ad *ImplAdapter, init string, chain, want []string) (*ImplInst, bool) {
+	for i := range chain {
+		from := init
+		if i > 0 {
+			from = want[i-1]
+		}
+		if _, dead := deadEdges.Load(edgeKey(from, chain[i])); dead {
+			return nil, false
+		}
+	}
+	failedAt := map[int]int{}
 	for try := 0; try < 4; try++ {
 		iv := tla.MustParse(init)
 		inst0, err := ad.New(&iv)
@@ -322,12 +339,22 @@ func build(ad *ImplAdapter, init string, chain, want []string) (*ImplInst, bool)
 					fmt.Fprintf(os.Stderr, "BUILD-MISS step %d/%d %s: %s\n", i, len(chain), DescribeStep(chain[i]), o.String())
 				}
 				ok = false // a race took the other outcome (or the instance drifted): try again
+				failedAt[i]++
 			}
 		}
 		if ok {
 			return inst, true
 		}
 		inst.Close()
+	}
+	for i, n := range failedAt {
+		if n == 4 {
+			from := init
+			if i > 0 {
+				from = want[i-1]
+			}
+			deadEdges.Store(edgeKey(from, chain[i]), true)
+		}
 	}
 	return nil, false
 }
